@@ -44,6 +44,12 @@ def pair():
     v = random.choice(["12!", "31!"])
     LOG.append(("pair", (), v))
     return v
+def flat():
+    # the deprecated tuple form: the text is a word of <id>, the SHAPE (one leaf) is not a derivation of <id> ::= <d>+ "!"
+    import random
+    v = random.choice(["12!", "3!"])
+    LOG.append(("flat", (), v))
+    return ("<id>", [(v, [])])
 '''
 
 
@@ -120,6 +126,14 @@ def catalog() -> dict:
         cons=[Atom('{0} == {1}', (Child(Sym("<plain>"), "<item>"), Child(Sym("<g>"), "<item>")), cmp=True),
               Atom('str({0}) != "12"', (Child(Sym("<g>"), "<item>"),), cmp=True)],
         gens={"<g>": ("pair", None)},
+    )
+    # a generator that returns a tree in tuple form whose shape is not a derivation (its text is): the result has to be re-read under the rule
+    c["generators_tuple"] = dict(
+        ref=RefGrammar({"<start>": Seq((NT("<k>"), NT("<id>"), NT("<tail>"))), "<k>": Alt((Lit("k"), Lit("j"))), "<id>": Seq((Plus(NT("<d>")), Lit("!"))),
+                        "<tail>": Rep(NT("<d>"), 1, 2), "<d>": D},
+                       generators={"<id>": "flat()"}, prelude=GEN_PRELUDE),
+        cons=[Atom('str({0}) == "k"', (Sym("<k>"),), cmp=True), Atom('str({0}) != "3"', (Sym("<tail>"),), cmp=True)],
+        gens={"<id>": ("flat", None)},
     )
     for name, e in c.items():
         e["name"] = name
